@@ -1,0 +1,72 @@
+//! Runtime-verification hooks (cargo feature `verif-hooks`, off by default).
+//!
+//! Nothing in here changes the behaviour of the library: the module offers a
+//! process-global *yield callback* that the lock-free entity allocation paths
+//! call between their atomic steps, so an external harness can drive chosen
+//! thread interleavings, plus plain-data snapshot types used by the read-only
+//! inspection methods that are compiled in together with this feature.
+
+use std::sync::atomic::{AtomicPtr, Ordering};
+
+/// Identifiers of the yield points (passed to the installed callback).
+pub mod point {
+    /// `allocate_atomic`: after the index was chosen, before `raised.add_atomic`.
+    pub const ALLOC_AFTER_INDEX: u32 = 1;
+    /// `allocate_atomic`: after `raised.add_atomic`, before the generation read.
+    pub const ALLOC_AFTER_RAISE: u32 = 2;
+    /// `kill_atomic`: after the aliveness test, before `killed.add_atomic`.
+    pub const KILL_AFTER_CHECK: u32 = 3;
+    /// `pop_atomic`: after the winning decrement, before the slot read.
+    pub const POP_AFTER_DECREMENT: u32 = 4;
+    /// `atomic_increment`: between the load / failed CAS and the next CAS.
+    pub const INC_BEFORE_CAS: u32 = 5;
+    /// `atomic_decrement`: between the load / failed CAS and the next CAS.
+    pub const DEC_BEFORE_CAS: u32 = 6;
+    /// `LazyUpdate::exec` / `exec_mut`: before the push onto the queue.
+    pub const LAZY_BEFORE_PUSH: u32 = 7;
+}
+
+static YIELD_HOOK: AtomicPtr<()> = AtomicPtr::new(std::ptr::null_mut());
+
+/// Installs (or removes, with `None`) the process-global yield callback.
+pub fn set_yield_hook(hook: Option<fn(u32)>) {
+    let p = match hook {
+        Some(f) => f as *mut (),
+        None => std::ptr::null_mut(),
+    };
+    YIELD_HOOK.store(p, Ordering::Relaxed);
+}
+
+/// Calls the installed yield callback, if any. A relaxed load and a branch
+/// when no callback is installed; deliberately no synchronisation so that race
+/// detectors see the same happens-before relation as without the hook.
+#[inline]
+pub(crate) fn yield_point(id: u32) {
+    let p = YIELD_HOOK.load(Ordering::Relaxed);
+    if !p.is_null() {
+        // SAFETY: the only non-null values ever stored are `fn(u32)` pointers.
+        let f: fn(u32) = unsafe { std::mem::transmute::<*mut (), fn(u32)>(p) };
+        f(id);
+    }
+}
+
+/// Plain-data copy of the entity allocator's internal state, taken under
+/// `&self` at a quiescent point (see `EntitiesRes::verif_snapshot`).
+#[derive(Clone, Debug, Default, PartialEq, Eq)]
+pub struct AllocatorSnapshot {
+    /// Per index: 0 = never used, g > 0 = alive at generation g, g < 0 = dead,
+    /// last generation -g.
+    pub generations: Vec<i32>,
+    /// Indices in the `alive` bit set, ascending.
+    pub alive: Vec<u32>,
+    /// Indices in the `raised` bit set, ascending.
+    pub raised: Vec<u32>,
+    /// Indices in the `killed` bit set, ascending.
+    pub killed: Vec<u32>,
+    /// The free list entries still available (`cache[..len]`), in stack order.
+    pub cache: Vec<u32>,
+    /// Physical length of the free list vector (>= `cache.len()`).
+    pub cache_vec_len: usize,
+    /// Next never-used index.
+    pub max_id: usize,
+}
